@@ -7,6 +7,7 @@ read by the specification itself.  Groups:
   struct  - delayed replication (factor choices)
   bitmap  - data present bitmaps (bit choices) with markers / quality information
 """
+import os
 import random
 
 # Table B entries that exist with the same width/scale/reference in every bundled version >= 13
@@ -176,8 +177,8 @@ def sample(items, k, rnd):
 def catalogue(tier, seed=0):
     rnd = random.Random(1000003 * seed + 17)
     p, s, b = plain_templates(), struct_templates(), bitmap_templates()
-    if tier == 'quick':
-        # everything small enough is always run; the seed rotates which of the heavier ones are included
+    if tier == 'quick' and os.environ.get('VERIF_QUICK_SAMPLED'):
+        # (kept for experiments) the seed rotates which of the heavier templates are included
         s = s[:8] + sample(s[8:], 5, rnd)
         b = b[:6] + sample(b[6:], 4, rnd)
     return {'plain': p, 'struct': s, 'bitmap': b, 'open': open_templates()}
